@@ -40,6 +40,10 @@ type W struct {
 	// Payload: "" strings, "int" unique integers, "float" unique non-integral floats,
 	// "loopint" the counter variable of the producer's for loop (L2 only)
 	Payload string `json:"payload,omitempty"`
+	// Nulls (script level): producer 0 also sends the value null, before each of its messages with an even index.
+	// null is a value like any other: it is delivered once, in order; a receiver cannot tell it from "closed and
+	// drained", the model can (the send is recorded as "null:p0-<k>", the receive as null).
+	Nulls bool `json:"null_payloads,omitempty"`
 	// CapForm (L2 only): how the constructor argument is written: "" int literal, "none", "neg", "str", "float"
 	CapForm string `json:"cap_form,omitempty"`
 	// SharedProd (L2 only, string payloads): all producers are executions of ONE closure value
@@ -156,6 +160,7 @@ func gen(r *verifsim.Rng, tier string) (any, hx.Sched) {
 			w.Payload = verifsim.Pick(r, []string{"", "", "int", "float", "loopint", "numstr", "obj", "keyed"})
 		}
 		w.SharedProd = !w.ArrayPayload && w.Payload == "" && r.Intn(4) == 0
+		w.Nulls = !w.SharedProd && w.Payload != "loopint" && len(w.Producers) > 0 && r.Intn(6) == 0
 		if r.Intn(8) == 0 {
 			// other constructor forms: no argument, a negative number (a string or float argument is a type error)
 			// (the class treats everything but a non-negative int as "unbuffered")
@@ -240,6 +245,11 @@ func shrink(x any) []any {
 	if w.SharedProd {
 		c := cp()
 		c.SharedProd = false
+		out = append(out, c)
+	}
+	if w.Nulls {
+		c := cp()
+		c.Nulls = false
 		out = append(out, c)
 	}
 	if w.Payload != "" {
@@ -475,6 +485,25 @@ func evaluate(o *hx.Outcome, w *W, ops []op, res *verifsim.Result) {
 	recv := map[string]int{}
 	closedObserved, closeReturned := false, false
 	var closeRet int64 = 1 << 60
+	// null payloads: sends attempted / acknowledged / still pending, and nulls received
+	nullTry, nullSent, nullPending, nullRecv := 0, 0, 0, 0
+	for _, p := range ops {
+		if p.Kind == "send" && strings.HasPrefix(p.Arg, "null:") {
+			nullTry++
+			if p.Ret == "true" {
+				nullSent++
+			}
+			if p.Ret == "pending" {
+				nullPending++
+			}
+		}
+		if p.Kind == "recv" && p.Ret == "null" {
+			nullRecv++
+		}
+	}
+	if nullTry > 0 {
+		o.Probe("runs_with_null_payloads", 1)
+	}
 	for _, p := range ops {
 		switch p.Kind {
 		case "send":
@@ -487,7 +516,10 @@ func evaluate(o *hx.Outcome, w *W, ops []op, res *verifsim.Result) {
 			}
 		case "recv":
 			if p.Ret == "null" {
-				closedObserved = true
+				// (more nulls received than ever sent: at least one of them means "closed and drained")
+				if nullRecv > nullTry {
+					closedObserved = true
+				}
 			} else if p.Ret != "pending" {
 				recv[p.Ret]++
 			}
@@ -553,7 +585,9 @@ func evaluate(o *hx.Outcome, w *W, ops []op, res *verifsim.Result) {
 		}
 	}
 	// 3. linearizability against the channel model
-	if len(res.Panics) == 0 {
+	if nullPending > 0 {
+		o.Inconclusive++ // whether a pending send(null) took effect cannot be read off the receives
+	} else if len(res.Panics) == 0 {
 		switch checkLinearizable(ops, closedObserved) {
 		case porcupine.Illegal:
 			o.Violate("C09/not-linearizable", "history has no sequential explanation: "+strings.Join(hs, " "))
@@ -572,9 +606,12 @@ func evaluate(o *hx.Outcome, w *W, ops []op, res *verifsim.Result) {
 	if len(res.Panics) == 0 && res.Outcome == verifsim.OutDeadlock {
 		queued := 0
 		for v := range sent {
-			if recv[v] == 0 {
+			if recv[v] == 0 && !strings.HasPrefix(v, "null:") {
 				queued++
 			}
+		}
+		if nullSent > nullRecv {
+			queued += nullSent - nullRecv
 		}
 		pendingRecv, pendingSend := 0, 0
 		for _, p := range ops {
@@ -614,13 +651,13 @@ func evaluate(o *hx.Outcome, w *W, ops []op, res *verifsim.Result) {
 	if len(res.Panics) == 0 && res.Outcome == verifsim.OutDone && closeReturned {
 		drained := false
 		for _, p := range ops {
-			if p.Kind == "recv" && p.Ret == "null" {
+			if p.Kind == "recv" && p.Ret == "null" && nullRecv > nullTry {
 				drained = true
 			}
 		}
 		if drained {
 			for v := range sent {
-				if recv[v] == 0 {
+				if recv[v] == 0 && !strings.HasPrefix(v, "null:") {
 					o.Violate("C09/lost-value", fmt.Sprintf("send(%s) reported success, the channel was closed and drained to null, but the value was never received", v))
 				}
 			}
@@ -713,7 +750,18 @@ var chanModel = porcupine.Model{
 			return st.closed, st
 		case "recv":
 			if out == "null" {
-				return st.closed && st.q == "", st
+				if st.closed && st.q == "" {
+					return true, st
+				}
+				// a null payload at the head of its sender's queue (only one sender sends nulls)
+				m := parseQ(st.q)
+				for s, q := range m {
+					if len(q) > 0 && strings.HasPrefix(q[0], "null:") {
+						m[s] = q[1:]
+						return true, chState{st.closed, fmtQ(m)}
+					}
+				}
+				return false, st
 			}
 			m := parseQ(st.q)
 			for s, q := range m {
